@@ -133,7 +133,8 @@ def build(model, ranks=None, plain=False, default_resource_ids=False, share_id_o
                 w_.facility_skill_map = dict(wj.get("fskills", {}))
                 w_.absence_time_list = list(wj.get("abs", []))
                 w_.main_workplace_id = "".join(list(wj["mainwp"])) if wj.get("mainwp") is not None else None
-                w_.assigned_task_list = []
+                if model.get("worker_copies") != "share_all":
+                    w_.assigned_task_list = []  # ("share_all": also the template's empty assigned_task_list stays shared at first)
                 w_.quality_skill_mean_map = {}
                 w_.quality_skill_sd_map = {}
                 workers.append(w_)
